@@ -130,6 +130,20 @@ CHECKS["C08"] = dict(
     note="Trusted: as C07. Survivors' correctness under LATER connects/reorgs is by repaired-on-witness examples and correspondence, not a general theorem; unspent/address/game rows are views of the credits in the model (their prefix deletes are checked by the raw scan). Three defects repaired (bb52441, 07c06d4).",
     technique="Coq proof (erasure and frame invariants of the removal state machine) + correspondence on real multi-wallet histories with raw-storage scan",
 )
+CHECKS["C17"] = dict(
+    category="proof",
+    text="PARTIAL. Read-placement half: a query is a list of reads over the stores of the C01 ledger model, a schedule assigns each read a commit index; with snapshot read transactions (repaired code) the answer and the number of reads equal those at the boundary where the View began, for every store sequence and schedule, and coin selection never offers an immature or locked coin at a boundary; witnesses that the code as found mixed boundaries (two commits between the height read and the iterator made confirmations wrap and an immature coinbase selectable). Data-race half: a table (field x function x R/W x thread role x held mutexes) is regenerated from the Go AST on every run and every conflicting pair is proved to share a mutex or be ordered by the suspend/resume hand-shake (or is listed by a computed refutation). Tied to the code by the real handler committing 1-3 blocks between numbered reads of real queries through a DB wrapper (226 scheduled queries per quick run), and by race-detector runs as supporting exploration.",
+    design_ref="DESIGN.md section 5, C17",
+    note="Partial: the Go memory model, aliasing, accesses the syntactic translator cannot see and goleveldb snapshot atomicity are outside any Gallina model; 'no coin counted twice' and balances = ledger model at a boundary are explored, not proved; data races inside mass-core's logger are recorded, not counted. Trusted: Coq kernel (no axioms), the lock-table translator, ExtrOcamlBasic + driver, harness (sched wrapper). Two defects repaired (2763853, c8404ce).",
+    technique="Coq proof (scheduled-read semantics over the ledger model; lock-set discipline over a source-translated table) + read-numbered correspondence on the real wallet + race-detector exploration",
+)
+CHECKS["C20"] = dict(
+    category="proof",
+    text="Coq labelled transition system of handler, worker, stopper, API client and announcing node with program counters at every channel operation (rendezvous suspend/resume, bounded queues, quit, wait group): by induction over reachable states with an invariant and a ranking function — no deadlock while running, every announced block is processed and every accepted task finishes, no task is dropped, hand-shake gives mutual exclusion, Stop terminates in the repaired protocol; the deadlock and the nil task queue of the code as found are refuted with reachable witnesses (and shown permanent). Tied to the code by steering the REAL goroutines through DB-wrapper gates along the model's paths (259 steered schedules + deterministic probes of the two repaired defects + unsteered races per quick run) and checking every observed event sequence and outcome for membership in the extracted model; a hung Stop is detected by timeout with a goroutine dump.",
+    design_ref="DESIGN.md section 5, C20",
+    note="Remainder: Go scheduler fairness and select randomness are nondeterminism in the model (every choice covered by the theorems, not forced in the runs); placements between two channel operations with no database call in between cannot be held from outside. Trusted: Coq kernel (no axioms), ExtrOcamlBasic + driver, harness (sched wrapper, stack-based role detection). Two defects repaired (423c8aa, 42cbcc9).",
+    technique="Coq proof (invariant + ranking function over a transition system) + schedule-controlled replay on the real goroutines with trace inclusion in the extracted model",
+)
 NOT_YET = "not claimed yet in this round: model and correspondence under construction (see DESIGN.md section 9 for the order)"
 
 def main():
